@@ -2513,9 +2513,11 @@ func position(tokens []Token, _ string) pr.CssProperty {
 		return nil
 	}
 	token := tokens[0]
-	if fn, ok := token.(pa.FunctionBlock); ok && utils.AsciiLower(fn.Name) == "running" && len(fn.Arguments) == 1 {
-		if ident, ok := (fn.Arguments)[0].(pa.Ident); ok {
-			return pr.BoolString{Bool: true, String: string(ident.Value)}
+	if fn, ok := token.(pa.FunctionBlock); ok && utils.AsciiLower(fn.Name) == "running" {
+		if args := pa.RemoveWhitespace(fn.Arguments); len(args) == 1 {
+			if ident, ok := args[0].(pa.Ident); ok {
+				return pr.BoolString{Bool: true, String: string(ident.Value)}
+			}
 		}
 	}
 	keyword := getSingleKeyword(tokens)
